@@ -217,11 +217,13 @@ Definition c10_no_strand_led (c : hcase) : bool :=
 
 (* 1 fidelity, 2 connection frames, 3 a conforming frame was refused, 4 stranding,
    6 a frame larger than any SETTINGS_MAX_FRAME_SIZE the receiver announced (it would answer FRAME_SIZE_ERROR
-     and nothing after it would be delivered) *)
+     and nothing after it would be delivered),
+   7 DATA beyond the credit the receiver granted (it would answer FLOW_CONTROL_ERROR: the stream or the
+     connection is lost and nothing after it is delivered) *)
 Definition c10_failures (c : hcase) : list N :=
   (if c10_fidelity c then [] else [1]) ++ (if c10_conn c then [] else [2]) ++
   (if c10_accepts c then [] else [3]) ++ (if c10_no_strand c && c10_no_strand_led c then [] else [4]) ++
-  (if c09_sizes c then [] else [6]).
+  (if c09_sizes c then [] else [6]) ++ (if c09_windows c then [] else [7]).
 Definition c10_prop_ok (c : hcase) : bool := match c10_failures c with [] => true | _ => false end.
 
 (* indices (from 0) of the cases on which f fails *)
